@@ -11,42 +11,54 @@ REQUIRED = ["iint", "Epoch.__init__", "Epoch.set", "Epoch._compute_jde", "Epoch.
             "Epoch.__add__", "Epoch.__sub__", "Epoch.__radd__", "Epoch.__iadd__", "Epoch.__isub__",
             "Epoch.__eq__", "Epoch.__ne__", "Epoch.__lt__", "Epoch.__le__", "Epoch.__gt__", "Epoch.__ge__",
             "Epoch.__float__", "Epoch.__int__"]
-THEOREMS = ["C02_date_of_day", "C02_date_monotone", "C02_full_date_grid", "C02_input_forms_all", "C02_datetime",
+THEOREMS = ["C02_date_of_day", "C02_date_monotone", "C02_full_date_grid", "C02_fields_every_float",
+            "C02_fields_premise_attained", "C02_input_forms_all", "C02_datetime",
             "C02_forms_grid", "C02_operators", "C02_arith_grid", "C02_order_ideal", "C02_arith_ideal"]
 PROOF_TIMEOUT = {"quick": 2400, "thorough": 3000}
 EXHAUSTIVE = False
 MANIFEST = {
     "category": "proof",
-    "text": ("T1: the regenerated binary64 model of Epoch.get_date is evaluated by the Coq kernel on EVERY day number "
-             "0..5 399 999 against the independent day count (jdn surjective+injective for all days by induction/lia); "
-             "get_full_date field ranges, JDE->fields->JDE <= 1e-8, input forms (incl. check_input_date, set, copy, "
-             "fractional day <= 1e-9) and (e+x)-e = x <= 1e-8 by kernel evaluation on stated grids; tuple/list/date/copy "
-             "forms and all comparison/arithmetic operators proved symbolically for ALL argument values in EVERY "
-             "FloatOps instance (binary64 and ideal reals); bit-exact correspondence model vs implementation every run; "
-             "boundary-heavy search oracle of every clause."),
+    "text": ("The property speaks of ANY instant in [0, 5.4e6]; the theorems cover less and say so: "
+             "(1) INTEGER DAY NUMBERS AT 0h: the regenerated binary64 model of Epoch.get_date is evaluated by the Coq kernel on "
+             "every day number 0..5 399 999 against the independent day count (jdn surjective+injective for all days by "
+             "induction/lia), hence the date increases from day to day; "
+             "(2) GRIDS: JDE->fields->JDE <= 1e-8 with fields in range, input forms (incl. check_input_date, set, copy, "
+             "fractional day <= 1e-9) and (e+x)-e = x <= 1e-8 by kernel evaluation on grids written out in the statements "
+             "(175 years x month-boundary days x 16 fractions, etc.), nowhere else; "
+             "(3) EVERY FLOAT: hour 0-23, minute 0-59, 0 <= second < 60 for every finite day value get_date can return "
+             "(Flocq-based, premise: get_date returned (int, int, finite float in [0,1000]), witnessed, not discharged for "
+             "arbitrary JDE); tuple/list/date/copy forms and all comparison / + - += -= radd operators for ALL argument "
+             "values in EVERY FloatOps instance (binary64 and ideal reals) -- e +/- x is only reduced to the constructor call "
+             "Epoch(jde +/- x), whose value is known on the grids only; the ideal instance does not give (e+x)-e = x. "
+             "Bit-exact correspondence model vs implementation every run; boundary-heavy search oracle of every clause "
+             "covers the gap between the grids and 'any instant'."),
     "technique": ("kernel computation over the full day range + grids (vm_compute reflection), lia/induction on the calendar "
-                  "spec, symbolic evaluation of the generated text valid for every FloatOps instance, differential "
-                  "correspondence, property oracle search with +-1 ulp probes"),
+                  "spec, Flocq reasoning about binary64 rounding (B64Verified) for the all-floats field ranges, symbolic "
+                  "evaluation of the generated text valid for every FloatOps instance, differential correspondence, "
+                  "property oracle search with +-1 ulp probes"),
     "design_ref": "8/C02",
 }
-EXPLANATION = ("get_date of the model regenerated from /repo is evaluated by the Coq kernel on every day number 0..5399999 "
-               "(16 shards walking Spec.next) and equals the unique valid civil date with that independent day count; "
-               "full-date field ranges/round trip, input forms and arithmetic are kernel-evaluated on grids that are part "
-               "of the statements; operators and tuple/list/date/copy dispatch are proved for all values in every "
-               "FloatOps instance by symbolic evaluation.")
+EXPLANATION = ("Not 'any instant': get_date of the model regenerated from /repo is evaluated by the Coq kernel on every INTEGER day "
+               "number 0..5399999 at 0h (16 shards walking Spec.next) and equals the unique valid civil date with that day "
+               "count; the JDE->fields->JDE round trip (1e-8), input forms (1e-9) and (e+x)-e = x (1e-8) are kernel-evaluated "
+               "on GRIDS that are part of the statements; hour/minute/second ranges are proved for every float day value "
+               "(Flocq) given the shape get_date returns; operators and tuple/list/date/copy dispatch are proved for all values "
+               "in every FloatOps instance by symbolic evaluation (e +/- x only reduced to a constructor call). The search "
+               "oracle covers arbitrary instants with boundary probes.")
 CLAUSES = {
-    "date of every integer day number 0 <= z < 5.4e6 is the civil date of z (valid, unique)": "proved [B64, kernel computation over the full domain + spec lemmas for all days]",
-    "date tuple strictly increasing from day to day": "proved [B64 full domain + spec jdn_mono]; inside a day (fraction part): unproved (searched)",
-    "hour 0-23, minute 0-59, 0 <= second < 60, date = civil date; JDE -> fields -> JDE within 1e-8": "proved [B64, grid: 175 years x 24 month-boundary days x 16 fractions + 22 days around the 1582 reform]; for every float: unproved (searched with +-1 ulp .. +-1 s probes)",
-    "tuple / list (3..6 items) / date / copy of an Epoch = separate numbers / JDE": "proved [every FloatOps instance incl. B64 and ideal, ALL argument values, symbolic]",
-    "datetime = separate numbers with seconds + microseconds/1e6": "proved [B64, all integer fields, symbolic]",
-    "set() vs constructor, check_input_date (numbers, tuple, list, date, datetime, Epoch) = constructor, Epoch(jde) re-derivation, copy within 1e-9": "proved [B64, grid 175 years x 12 months x {first,last day} x 4 times]",
-    "fractional day versus h/m/s within 1e-9 day": "proved [B64, same grid]; elsewhere unproved (searched)",
+    "date at 0h of every INTEGER day number 0 <= z < 5.4e6 is the civil date of z (valid, unique)": "proved [B64, kernel computation over all 5.4e6 day numbers + spec lemmas for all days]; other instants of the day: grid below / searched",
+    "date tuple never decreasing as JDE grows": "proved only between different days at 0h [B64 full domain + spec jdn_mono]; two instants inside one day: unproved (searched over sorted probes)",
+    "any instant in [0,5.4e6] survives JDE -> fields -> JDE within 1e-8, date = civil date of the day": "GRID ONLY: proved [B64, 175 years x 24 month-boundary days x 16 fractions + 22 days around the 1582 reform]; any other instant: unproved (searched with +-1 ulp .. +-1 s probes around day/month/year/hour/minute boundaries)",
+    "hour 0-23, minute 0-59, 0 <= second < 60": "proved for EVERY float [B64 + Flocq, C02_fields_every_float] under the premise that get_date returned (int, int, finite day value in [0,1000]) (attained: witness theorem + grid; premise not discharged for arbitrary JDE); day within the month: grid / integer days only",
+    "tuple / list (3..6 items) / date / copy of an Epoch = separate numbers / JDE": "proved [every FloatOps instance incl. B64 and ideal, ALL argument values, symbolic; relational: same result or same exception]; that the result is an Epoch (no exception): grid only",
+    "datetime = separate numbers with seconds + microseconds/1e6": "proved [B64, all integer fields, symbolic, relational]",
+    "set() vs constructor, check_input_date (numbers, tuple, list, date, datetime, Epoch) = constructor, Epoch(jde) re-derivation, copy within 1e-9": "GRID ONLY: proved [B64, 175 years x 12 months x {first,last day} x 4 times]; elsewhere searched",
+    "fractional day versus h/m/s within 1e-9 day": "GRID ONLY: proved [B64, same grid]; elsewhere unproved (searched)",
     "month names": "proved in C01 [B64, every year]; searched here",
     "<, <=, >, >= are the comparisons of the JDEs; == is |diff| < 1e-10; != = not ==; TypeError for other operands": "proved [every FloatOps instance, all floats / all reals, symbolic] + [ideal: iff statements]",
-    "Epoch - Epoch = difference of JDEs; Epoch +/- x = Epoch(jde +/- x); x + Epoch = Epoch + x; TypeError for other operands": "proved [every FloatOps instance, all values, symbolic]",
-    "(e + x) - e = x and e - (e - x) = x to 1e-8 day": "proved [B64, grid 175 years x 12 x 3 fractions x 16 offsets up to +-1e6]; [ideal] reduced to Epoch(j) = j, which is unproved in the ideal instance (needs the calendar algorithm for all reals); searched",
-    "in-place forms += and -= return what + and - return": "proved [every FloatOps instance, float and int offsets, symbolic] + [B64, arithmetic grid]",
+    "Epoch - Epoch = difference of JDEs; x + Epoch, += , -= return what + / - return; TypeError for other operands": "proved [every FloatOps instance, all values, float and int offsets, symbolic]",
+    "Epoch +/- x": "only REDUCED to the constructor call Epoch(jde +/- x) [every FloatOps instance, symbolic]; the value of that call is known on the grids only",
+    "(e + x) - e = x and e - (e - x) = x to 1e-8 day": "GRID ONLY: proved [B64, 175 years x 12 month starts x 3 fractions x 16 offsets up to +-1e6, whenever jde +/- x stays in [0,5.4e6]]; ideal instance: NOT proved (needs Epoch(j) = j for all reals); elsewhere searched",
     "__hash__": "unproved: not translated (hash of a float); not searched",
 }
 
@@ -55,7 +67,7 @@ def proof_files(tier):
     return (["C02_defs.v"] + ["C02_walk_%02d.v" % k for k in range(16)]
             + ["C02_full_%d.v" % k for k in range(3)] + ["C02_forms_%d.v" % k for k in range(2)]
             + ["C02_arith_%d.v" % k for k in range(4)]
-            + ["C02_special.v", "C02_sym.v", "C02_symf.v", "C02_main.v", "C02.v"])
+            + ["C02_special.v", "C02_sym.v", "C02_symf.v", "C02_hms.v", "C02_main.v", "C02.v"])
 
 
 NAMES = ["Jan", "Feb", "Mar", "Apr", "May", "Jun", "Jul", "Aug", "Sep", "Oct", "Nov", "Dec"]
